@@ -371,7 +371,7 @@ func ruleV4g(c *Ctx) *RuleResult {
 }
 
 func ruleF27(c *Ctx) *RuleResult {
-	r := &RuleResult{Floor: 3, FloorWhat: "client functions that perform an HTTP exchange"}
+	r := &RuleResult{Floor: 2, FloorWhat: "client functions that perform an HTTP exchange"}
 	n := 0
 	for _, fn := range c.clientFuncs() {
 		var do *ssa.Call
